@@ -615,6 +615,32 @@ def gen_scenario(rng: random.Random, groups: bool = True, async_req: bool = Fals
     return normalise(sc)
 
 
+def gen_future_shift_scenario(rng: random.Random) -> dict:
+    """Events dated into the future over time-shifted connections: an event-based / hybrid producer whose outputs may carry a later
+    output time, pushed over connections with shift 1-2 into consumers that step at every time: the due time is output time +
+    shift, neither earlier (step time + shift) nor later."""
+    p_type = rng.choice(["hybrid", "hybrid", "event-based"])
+    sims = [{"type": p_type, "group": [], "init_ev": 0 if p_type == "event-based" else None}]
+    connects = []
+    for _ in range(rng.choice([1, 2])):
+        c_type = rng.choice(["time-based", "hybrid", "event-based"])
+        sims.append({"type": c_type, "group": [], "init_ev": None})
+        d = len(sims) - 1
+        ts = rng.choice([1, 1, 2])
+        dattr = 1 if c_type != "time-based" else 0
+        connects.append({"src": 0, "seid": rng.randrange(2), "dst": d, "deid": rng.randrange(2), "sattr": 3, "dattr": dattr, "ts": ts,
+                         "weak": False, "init": False, "async": False})
+        if rng.random() < 0.4:
+            connects.append({"src": 0, "seid": 0, "dst": d, "deid": 0, "sattr": 2, "dattr": 0, "ts": ts, "weak": False, "init": True, "async": False})
+    if p_type == "event-based" or rng.random() < 0.5:
+        # keep the producer going: a clock that triggers it
+        sims.append({"type": "time-based", "group": [], "init_ev": None})
+        connects.append({"src": len(sims) - 1, "seid": 0, "dst": 0, "deid": 1, "sattr": 2, "dattr": 1, "ts": 0, "weak": False, "init": False, "async": False})
+    sc = {"sims": sims, "connects": connects, "until": rng.randint(4, 6), "max_loop": 100, "lazy": rng.random() < 0.5, "cache": rng.random() < 0.3,
+          "beh_seed": rng.randrange(10 ** 9), "sparse_persistent": False, "future_outputs": True}
+    return normalise(sc)
+
+
 def gen_mas_scenario(rng: random.Random) -> dict:
     """Multi-agent pattern (examples/example_mas): 1-3 controllers, 1-2 agent simulators connected to them with
     async_requests=True; every agent entity writes to every controller in ONE set_data call per step."""
